@@ -124,6 +124,8 @@ class Work:
         "queue/concurrent_array_blocking_queue.go", "queue/concurrent_linked_blocking_queue.go", "queue/delay_queue.go",
         "queue/concurrent_linked_queue.go", "syncx/limit_pool.go", "syncx/segment_key_lock.go", "syncx/cond.go",
         "queue/concurrent_priority_queue.go", "list/concurrent_list.go", "list/copy_on_write_array_list.go",
+        # per-file options of harness/evinst (see its `options`): exact logging of channel operations by polling, go statements
+        "pool/task_pool.go:poll,go,strict,chan=queue,cancel=interruptCtxCancel,skip=States,skip=sendState,skip=getState",
     ]
 
     def evinst_repo(self):
@@ -138,7 +140,7 @@ class Work:
             return None
         dst = os.path.join(self.dir, "repo-evinst")
         shutil.copytree(self.repo, dst, symlinks=True)
-        files = [f for f in self.EVINST_FILES if os.path.exists(os.path.join(dst, f))]
+        files = [f for f in self.EVINST_FILES if os.path.exists(os.path.join(dst, f.split(":")[0]))]
         rc, log = sh([binp, "-root", dst] + files, env=GOENV, timeout=120)
         if rc != 0:
             self.evinst_log = "evinst failed (the source left the instrumentable subset): " + log
